@@ -221,6 +221,29 @@ func c08Case(rep *Report, cfg engine.Config, ops []engine.Op, hseed int64, kinds
 		Replay: histReplay{Config: cfg, Ops: min, Failures: fails, Seed: hseed, Mode: "c08"}})
 }
 
+// shrinkOpenUnderFaults: a file whose last 110 pages are one free region up to the end marker is opened with a lower
+// maximum size while the kind-th sort of I/O call fails from its pos-th call on (burst calls).
+func shrinkOpenUnderFaults(kind, pos, burst int) (engine.Config, []engine.Op) {
+	var ops []engine.Op
+	ops = append(ops, engine.Op{Kind: "begin"}, engine.Op{Kind: "alloc", N: 150})
+	for k := 0; k < 6; k++ {
+		ops = append(ops, engine.Op{Kind: "setfull", P: k, Seed: 30 + k})
+	}
+	ops = append(ops, engine.Op{Kind: "commit"}, engine.Op{Kind: "begin"})
+	for k := 0; k < 110; k++ {
+		ops = append(ops, engine.Op{Kind: "free", P: 40}) // the last 110 pages: one free region up to the end marker
+	}
+	ops = append(ops, engine.Op{Kind: "commit"}, engine.Op{Kind: "verify"},
+		engine.Op{Kind: "fault", P: kind, N: pos, Len: burst},
+		engine.Op{Kind: "reopen-under-faults", Flags: uint64(txfile.FlagUpdMaxSize), MaxSize: uint64(64+4*(pos%4)) * 1024},
+		engine.Op{Kind: "nofault"}, engine.Op{Kind: "verify"},
+		engine.Op{Kind: "begin"}, engine.Op{Kind: "alloc", N: 3}, engine.Op{Kind: "setfull", P: 7, Seed: 91}, engine.Op{Kind: "commit-must-succeed"}, engine.Op{Kind: "verify"},
+		engine.Op{Kind: "reopen"}, engine.Op{Kind: "verify"},
+		engine.Op{Kind: "begin"}, engine.Op{Kind: "free", P: 1}, engine.Op{Kind: "alloc", N: 1}, engine.Op{Kind: "commit-must-succeed"}, engine.Op{Kind: "verify"})
+	cfg := engine.Config{PageSize: 1024, MaxSize: 256 * 1024, InitMetaArea: uint32(4 + 4*(pos%2))} // (meta area in front: the free region reaches the end marker)
+	return cfg, ops
+}
+
 func init() {
 	register("c08", func(args []string) int {
 		f := parseFlags("c08", args)
@@ -292,23 +315,7 @@ func init() {
 		for kind := 0; kind <= 1; kind++ {
 			for pos := 0; pos <= 7; pos++ {
 				for _, burst := range []int{1, 3, 1000} {
-					var ops []engine.Op
-					ops = append(ops, engine.Op{Kind: "begin"}, engine.Op{Kind: "alloc", N: 150})
-					for k := 0; k < 6; k++ {
-						ops = append(ops, engine.Op{Kind: "setfull", P: k, Seed: 30 + k})
-					}
-					ops = append(ops, engine.Op{Kind: "commit"}, engine.Op{Kind: "begin"})
-					for k := 0; k < 110; k++ {
-						ops = append(ops, engine.Op{Kind: "free", P: 40}) // the last 110 pages: one free region up to the end marker
-					}
-					ops = append(ops, engine.Op{Kind: "commit"}, engine.Op{Kind: "verify"},
-						engine.Op{Kind: "fault", P: kind, N: pos, Len: burst},
-						engine.Op{Kind: "reopen-under-faults", Flags: uint64(txfile.FlagUpdMaxSize), MaxSize: uint64(64+4*(pos%4)) * 1024},
-						engine.Op{Kind: "nofault"}, engine.Op{Kind: "verify"},
-						engine.Op{Kind: "begin"}, engine.Op{Kind: "alloc", N: 3}, engine.Op{Kind: "setfull", P: 7, Seed: 91}, engine.Op{Kind: "commit-must-succeed"}, engine.Op{Kind: "verify"},
-						engine.Op{Kind: "reopen"}, engine.Op{Kind: "verify"},
-						engine.Op{Kind: "begin"}, engine.Op{Kind: "free", P: 1}, engine.Op{Kind: "alloc", N: 1}, engine.Op{Kind: "commit-must-succeed"}, engine.Op{Kind: "verify"})
-					cfg := engine.Config{PageSize: 1024, MaxSize: 256 * 1024, InitMetaArea: uint32(4 + 4*(pos%2))} // (meta area in front: the free region reaches the end marker)
+					cfg, ops := shrinkOpenUnderFaults(kind, pos, burst)
 					c08Case(rep, cfg, ops, int64(3000+kind*100+pos*10+burst%7), fmt.Sprintf("shrink-open kind=%d pos=%d burst=%d", kind, pos, burst))
 					rep.count("scenario:faults-while-open-lowers-the-maximum-size", 1)
 				}
